@@ -14,7 +14,7 @@ KINDS = {
     "C01": {"branch-not-applicable", "failed-operation-changed-the-store", "version-not-bumped-by-one", "stored-value",
             "commit-without-its-event", "load-without-its-event"},
     "C02": {"event-published-by-failed-operation", "event-without-commit", "publish-position", "ring-capacity-below-initial",
-            "bookmark-of-published-event", "start-position", "initial-event", "bootstrap-of-absent-resource", "bootstrap-contents",
+"start-position", "initial-event", "bootstrap-of-absent-resource", "bootstrap-contents",
             "read-position", "ring-contents", "errored-without-lag", "event-skipped-or-foreign", "event-dropped", "wrong-event",
             "unexpected-event", "event-after-errored", "read-after-errored", "write-position", "read-by-unknown-watch",
             "send-by-unknown-watch"},
